@@ -493,18 +493,18 @@ def session_twoface(rng, tag=None):
 
 def gen_stars(rng, tier):
     ops = []
-    for _ in range(N(tier, 1400, 2800)):
+    for _ in range(N(tier, 1200, 2400)):
         ops += session_star(rng)
     return with_grid_dumps(ops)
 
 
 def gen_boxes(rng, tier):
     ops = []
-    for _ in range(N(tier, 300, 600)):
+    for _ in range(N(tier, 240, 480)):
         ops += session_box(rng)
     for _ in range(N(tier, 80, 160)):
         ops += session_twoface(rng)
-    for _ in range(N(tier, 200, 400)):
+    for _ in range(N(tier, 160, 320)):
         ops += session_surface(rng)
     return with_grid_dumps(ops)
 
@@ -618,7 +618,7 @@ def oracle_fn(ops, impl):
         if k.startswith('form_') and line == 'bad-op':
             caller = False       # an end of the edge is gone: what follows runs on the previous cavity
         if k == 'ledger':
-            cert = lw == ['ok', '1', '1']
+            cert = lw[:3] == ['ok', '1', '1']
             continue
         if k in ('new', 'set_state', 'surf_node', 'form') or (k in ST_OPS and k not in ('visible', 'replace')):
             cert = False
@@ -659,8 +659,9 @@ def oracle_fn(ops, impl):
                                     (sorted(new_ids), sorted(old_ids))))
                     try:
                         if sorted(bs) == sorted(tris):
-                            v0 = sum(fvol(verts, *t[:4]) for t in bt)
-                            v1 = sum(fvol(verts, *t[:4]) for t in tets)
+                            sa, sb = set(bt), set(tets)
+                            v0 = sum(fvol(verts, *t[:4]) for t in bt if t not in sb)
+                            v1 = sum(fvol(verts, *t[:4]) for t in tets if t not in sa)
                             if v0 != v1:
                                 bad.append((i, 'replace changed the total volume by %s' % float(v1 - v0)))
                         old = set(bt)
